@@ -209,4 +209,216 @@ theorem stepA_noAdopt (fl : Flags) (a : StA Disk) (cb : Cb) (rest : List Cb) (hr
   | notifyCheck j d => simp only [runCbA, St.apply]; unfold St.step; simp only [hr]
   | waiterRun => simp only [runCbA, St.apply]; unfold St.step; simp only [hr]
 
+/-! ### job processes -/
+
+open XpmVerif.Restart
+
+/-- steps a job process still has to make. -/
+def rk : Ph → Nat
+  | .waitLock => 3 | .body => 2 | .exiting => 1 | .gone => 0
+
+def procRank (d : Disk) : Nat := SchedFinal.sumTo (fun p => rk (d.procs p).ph) d.np
+
+theorem procRank_congr {d d' : Disk} (hn : d'.np = d.np) (hp : d'.procs = d.procs) : procRank d' = procRank d := by
+  unfold procRank; rw [hn, hp]
+
+theorem procRank_onLaunch (d : Disk) (j : Nat) (jb : Job) : procRank (world.onLaunch d j jb) = procRank d + 3 := by
+  have hn : (world.onLaunch d j jb).np = d.np + 1 := rfl
+  have hp : (world.onLaunch d j jb).procs = upd d.procs d.np { ident := jb.ident, ph := .waitLock, code := jb.code } := rfl
+  unfold procRank
+  rw [hn, hp, SchedFinal.sumTo_succ]
+  have : SchedFinal.sumTo (fun p => rk (upd d.procs d.np { ident := jb.ident, ph := Ph.waitLock, code := jb.code } p).ph) d.np
+      = SchedFinal.sumTo (fun p => rk (d.procs p).ph) d.np :=
+    SchedFinal.sumTo_congr _ _ _ (fun i hi => by simp [upd, Nat.ne_of_lt hi])
+  rw [this]; simp [rk]
+
+theorem gate_procs (d : Disk) (kind : TK) (j : Nat) (jb : Job) (ad : Bool) (c : Option Nat) (d' : Disk)
+    (h : world.gate d kind j jb ad = some (c, d')) : d'.procs = d.procs ∧ d'.np = d.np := by
+  cases kind <;> simp only [world] at h
+  · split at h <;> simp at h
+    obtain ⟨_, rfl⟩ := h; exact ⟨rfl, rfl⟩
+  · simp at h; obtain ⟨_, rfl⟩ := h; exact ⟨rfl, rfl⟩
+  · split at h
+    · simp at h
+    · split at h <;> simp at h <;> obtain ⟨_, rfl⟩ := h <;> exact ⟨rfl, rfl⟩
+  · simp at h; obtain ⟨_, rfl⟩ := h; exact ⟨rfl, rfl⟩
+
+/-- a job process that can move. -/
+def ProcEnabled (d : Disk) (p : Nat) : Prop :=
+  p < d.np ∧ ((d.procs p).ph = .body ∨ (d.procs p).ph = .exiting ∨
+    ((d.procs p).ph = .waitLock ∧ (d.dir (d.procs p).ident).lock = .free))
+
+theorem procRank_step (d : Disk) (p : Nat) (rm : Bool) (h : ProcEnabled d p) :
+    procRank (d.procStep p rm) < procRank d := by
+  obtain ⟨hp, hph⟩ := h
+  have key : ∀ (d' : Disk) (x : Proc), d'.np = d.np → d'.procs = upd d.procs p x → rk x.ph < rk (d.procs p).ph →
+      procRank d' < procRank d := by
+    intro d' x hn hpr hlt
+    unfold procRank
+    rw [hn, hpr]
+    have := SchedFinal.sumTo_upd (fun q => rk (upd d.procs p x q).ph) (fun q => rk (d.procs q).ph) d.np p hp
+      (fun i hi => by simp [upd, hi])
+    simp only [SchedFinal.upd_same] at this
+    omega
+  unfold Disk.procStep
+  simp only [hp, if_true]
+  rcases hph with e | e | ⟨e, hl⟩
+  · simp only [e]
+    split
+    · exact key _ _ rfl rfl (by simp [e, rk])
+    · exact key _ _ rfl rfl (by simp [e, rk])
+  · simp only [e]
+    exact key _ _ rfl rfl (by simp [e, rk])
+  · simp only [e, hl, if_true]
+    split
+    · exact key _ _ rfl rfl (by simp [e, rk])
+    · exact key _ _ rfl rfl (by simp [e, rk])
+
+/-! ### one event of the restart world -/
+
+/-- what a callback of the world scheduler does to the disk when nothing is adopted: nothing, or one launch. -/
+theorem stepA_disk (fl : Flags) (a : StA Disk) (cb : Cb) (rest : List Cb) (hr : a.s.ready = cb :: rest)
+    (hna : ∀ j, cb = .start j → (world.look a.d j (a.s.jobs j)).adopt = false) :
+    (stepA fl world a).d = a.d ∨ ∃ j jb, (stepA fl world a).d = world.onLaunch a.d j jb := by
+  rw [stepA_cons fl world a cb rest hr]
+  cases cb with
+  | start j =>
+    have h0' : (world.look a.d j (({ a.s with ready := rest } : St).jobs j)).adopt = false := hna j rfl
+    simp only [runCbA, h0', Bool.false_eq_true, if_false]; simp
+  | resume j =>
+    simp only [runCbA]
+    split
+    · exact Or.inr ⟨j, _, rfl⟩
+    · exact Or.inl rfl
+  | _ => exact Or.inl rfl
+
+/-- the events of a run of the second scheduler: a callback, the completion of a helper thread the world lets
+    complete, a move of a job process. -/
+def WEnabled (w : W) : WEv → Prop
+  | .sched .step => w.a.s.ready ≠ []
+  | .sched (.deliver k) => ∃ kind j c d', w.a.s.threads[k]? = some (kind, j) ∧
+      world.gate w.a.d kind j (w.a.s.jobs j) (w.a.adopted j) = some (c, d')
+  | .proc p _ => ProcEnabled w.a.d p
+  | _ => False
+
+/-- the event adopts nothing: if it is the first segment of a job, the pid file names no live process. -/
+def NoAdoptAt (w : W) : WEv → Prop
+  | .sched .step => ∀ j rest, w.a.s.ready = .start j :: rest → (world.look w.a.d j (w.a.s.jobs j)).adopt = false
+  | _ => True
+
+/-- the variant of the restart world: the measure of the scheduler (weight 4: a launch creates a process of rank 3)
+    plus the steps the job processes still have to make. -/
+def wmu (w : W) : Nat := 4 * mu w.a.s + procRank w.a.d
+
+theorem jlocal_marker_edit {jb : Job} (hL : JLocal jb) (hp : jb.pc = .created) (hs : jb.state = .unscheduled) (m : Bool) :
+    JLocal { jb with marker := m } := by
+  unfold JLocal at hL ⊢
+  simp only [hp, hs, pcEnd, pcEarly, pcRun] at hL ⊢
+  grind
+
+theorem jlocal_code_edit {jb : Job} (hL : JLocal jb) (hp : jb.pc = .codeWait) (hs : jb.state = .running) (c : Nat) :
+    JLocal { jb with code := c } := by
+  unfold JLocal at hL ⊢
+  simp only [hp, hs, pcEnd, pcEarly, pcRun] at hL ⊢
+  grind
+
+theorem wstep {fl : Flags} (hg : fl.readyGuarded = true) (hf : fl.resubmitRegisters = true)
+    (ha : fl.abortRechecks = true) (hrel : fl.abortReleases = true) {totals : List Nat} {done0 : Nat → Bool} {w : W}
+    (hW : WReach fl totals done0 w) (hG : Good fl w.a.s) (e : WEv) (hen : WEnabled w e) (hna : NoAdoptAt w e) :
+    Good fl (w.apply fl e).a.s ∧ wmu (w.apply fl e) < wmu w := by
+  cases e with
+  | crash => exact absurd hen id
+  | crashAfterSpawn j => exact absurd hen id
+  | crashInPrepare j st => exact absurd hen id
+  | proc p rm =>
+    have := procRank_step w.a.d p rm hen
+    refine ⟨hG, ?_⟩
+    show 4 * mu w.a.s + procRank (w.a.d.procStep p rm) < 4 * mu w.a.s + procRank w.a.d
+    omega
+  | sched ev =>
+    cases ev with
+    | submit _ _ _ _ => exact absurd hen id
+    | wait => exact absurd hen id
+    | step =>
+      have hne : w.a.s.ready ≠ [] := hen
+      cases hr : w.a.s.ready with
+      | nil => exact absurd hr hne
+      | cons cb rest =>
+        have hna' : ∀ j, cb = .start j → (world.look w.a.d j (w.a.s.jobs j)).adopt = false := by
+          intro j hj; subst hj; exact hna j rest hr
+        have hs := stepA_noAdopt fl w.a cb rest hr hna'
+        have hd := stepA_disk fl w.a cb rest hr hna'
+        -- the (possibly edited) state on which the M2 callback runs
+        have key : ∀ se : St, Good fl se → mu se = mu w.a.s → se.ready = w.a.s.ready →
+            (stepA fl world w.a).s = se.apply fl .step →
+            Good fl (w.apply fl (.sched .step)).a.s ∧ wmu (w.apply fl (.sched .step)) < wmu w := by
+          intro se hGe hmu hre hse
+          have hen' : Enabled se .step := by show se.ready ≠ []; rw [hre]; exact hne
+          have h1 := good_apply hg hf ha .step hen' hGe
+          have h2 := mu_decreases fl hg ha hrel se hGe.invT hGe.b.noreg .step hen'
+          have e1 : (w.apply fl (.sched .step)).a.s = se.apply fl .step := hse
+          refine ⟨by rw [e1]; exact h1, ?_⟩
+          unfold wmu
+          rw [e1]
+          have e2 : (w.apply fl (.sched .step)).a.d = (stepA fl world w.a).d := rfl
+          rw [e2]
+          rcases hd with e3 | ⟨j, jb, e3⟩
+          · rw [e3]; omega
+          · rw [e3, procRank_onLaunch]; omega
+        cases cb with
+        | start j =>
+          have hpc := head_start_pc (s := w.a.s) hG.e.c.a.ctl hr
+          have hun := hG.e.c.f j (Or.inr hpc)
+          have hsb : SameBut (w.a.s.jobs j) (markerRec w.a j) := ⟨rfl, rfl, rfl, rfl, rfl, rfl, rfl, rfl, rfl, rfl⟩
+          have hL := jlocal_marker_edit (hG.e.c.a.loc j) hpc hun (world.look w.a.d j (w.a.s.jobs j)).marker
+          exact key _ (good_edit hG hsb hL) (mu_edit hsb) rfl hs
+        | resume j => exact key _ hG rfl rfl hs
+        | register j => exact key _ hG rfl rfl hs
+        | wake j => exact key _ hG rfl rfl hs
+        | check j d => exact key _ hG rfl rfl hs
+        | notifyCheck j d => exact key _ hG rfl rfl hs
+        | waiterRun => exact key _ hG rfl rfl hs
+    | deliver k =>
+      obtain ⟨kind, j, c, d', hk, hgate⟩ := hen
+      have hgp := gate_procs _ _ _ _ _ _ _ hgate
+      have hkl : k < w.a.s.threads.length := by
+        apply Classical.byContradiction; intro hn
+        rw [List.getElem?_eq_none (by omega)] at hk; cases hk
+      have e0 : (w.apply fl (.sched (.deliver k))).a = deliverA w.a k j c d' := by
+        show applyA fl world w.a (.deliver k) = _
+        simp only [applyA, hk, hgate]
+      -- the state on which the M2 delivery runs
+      have key : ∀ se : St, Good fl se → mu se = mu w.a.s → se.threads = w.a.s.threads →
+          (deliverA w.a k j c d').s = se.apply fl (.deliver k) →
+          Good fl (w.apply fl (.sched (.deliver k))).a.s ∧ wmu (w.apply fl (.sched (.deliver k))) < wmu w := by
+        intro se hGe hmu hth hse
+        have hen' : Enabled se (.deliver k) := by show k < se.threads.length; rw [hth]; exact hkl
+        have h1 := good_apply hg hf ha (.deliver k) hen' hGe
+        have h2 := mu_decreases fl hg ha hrel se hGe.invT hGe.b.noreg (.deliver k) hen'
+        rw [← hse] at h1 h2
+        refine ⟨by rw [e0]; exact h1, ?_⟩
+        unfold wmu
+        rw [e0]
+        have e2 : (deliverA w.a k j c d').d = d' := rfl
+        rw [e2, procRank_congr hgp.2 hgp.1]
+        omega
+      cases c with
+      | none =>
+        refine key w.a.s hG rfl rfl ?_
+        simp only [deliverA, setCode, St.apply, hk]
+      | some cv =>
+        have hkind := gate_code_kind _ _ _ _ _ _ _ hgate
+        subst hkind
+        have hkm : (TK.code, j) ∈ w.a.s.threads := List.mem_of_getElem? hk
+        have hpc : (w.a.s.jobs j).pc = .codeWait := by
+          have := (wreach_inv hW).sched.1.kind _ hkm
+          simp only at this
+          revert this
+          cases (w.a.s.jobs j).pc <;> simp [kindOk]
+        have hrun := (hG.e.c.d.recs j).runRunning (by rw [hpc]; rfl)
+        have hsb : SameBut (w.a.s.jobs j) { (w.a.s.jobs j) with code := cv } := ⟨rfl, rfl, rfl, rfl, rfl, rfl, rfl, rfl, rfl, rfl⟩
+        have hL := jlocal_code_edit (hG.e.c.a.loc j) hpc hrun cv
+        refine key _ (good_edit hG hsb hL) (mu_edit hsb) rfl ?_
+        simp only [deliverA, setCode, put_nil_eq, St.apply, edit_threads, hk]
+
 end XpmVerif.RestartTerm
